@@ -4,6 +4,7 @@ package memberlist
 
 import (
 	"fmt"
+	"runtime"
 	"strings"
 	"testing/synctest"
 	"time"
@@ -47,7 +48,9 @@ func genC20(c *Ctx) *Plan {
 		}
 		if r.chance(0.7) {
 			st := base + dur/3 + r.i64n(dur/2)
-			p.Ops = append(p.Ops, Op{At: st, Kind: "shutdown", Node: i})
+			// B=1: a second Shutdown is issued by another goroutine while the first one is
+			// inside transport.Shutdown() (a true overlap, see execC20)
+			p.Ops = append(p.Ops, Op{At: st, Kind: "shutdown", Node: i, B: int64(r.pick(0, 1))})
 			if r.chance(0.6) {
 				p.Ops = append(p.Ops, Op{At: st + int64(r.pick(0, 1, 1000, 500_000_000)), Kind: "shutdown", Node: i})
 			}
@@ -74,6 +77,17 @@ func genC20(c *Ctx) *Plan {
 	}
 	p.P["end"] = base + dur + int64(6*time.Second)
 	p.YieldOff = genYieldOff(r)
+	// "shutdown2" parks inside the region protected by shutdownLock; with a truly
+	// overlapping second Shutdown that would leave a goroutine blocked on a sync.Mutex
+	hasS2 := false
+	for _, s := range p.YieldOff {
+		if s == "shutdown2" {
+			hasS2 = true
+		}
+	}
+	if !hasS2 {
+		p.YieldOff = append(p.YieldOff, "shutdown2")
+	}
 	return p
 }
 
@@ -142,6 +156,45 @@ func execC20(c *Ctx) {
 	mon := &c20mon{probeWindow: tp, marked: map[*Memberlist]bool{}, marked2: map[*Memberlist]bool{}, baseW: map[*Memberlist][2]int{}}
 	cx := startClusterRun(c, mon, newEventMon(), &healthMon{})
 	cx.allowAfterShutdown = true
+	type overlapObs struct {
+		node                       string
+		returned                   bool
+		transportClosed, flag, chClosed bool
+		err                        error
+	}
+	var overlaps []*overlapObs
+	cx.customOp = func(rec *opRec) bool {
+		op := rec.Op
+		n := cx.node(op.Node)
+		if op.Kind == "shutdown" && op.B == 1 && n != nil && n.m != nil && n.ep != nil && !n.shutCalled {
+			m := n.m
+			ep := n.ep
+			ob := &overlapObs{node: n.name}
+			overlaps = append(overlaps, ob)
+			ep.onShutdown = func() {
+				go func() {
+					c.Sim.direct.Add(1) // the overlapping call must not park at its entry yield
+					ob.err = m.Shutdown()
+					c.Sim.direct.Add(-1)
+					ep.mu.Lock()
+					ob.transportClosed = ep.closed
+					ep.mu.Unlock()
+					ob.flag = m.hasShutdown()
+					select {
+					case <-m.shutdownCh:
+						ob.chClosed = true
+					default:
+					}
+					ob.returned = true
+				}()
+				for i := 0; i < 300; i++ {
+					runtime.Gosched()
+				}
+			}
+			c.Reach("overlapping_shutdown_probe")
+		}
+		return false
+	}
 	end := time.Duration(p.param("end", int64(30*time.Second)))
 	c.Sim.RunUntil(end, func() bool { return c.Failed() })
 	if c.Failed() {
@@ -198,6 +251,11 @@ func execC20(c *Ctx) {
 	}
 	for k, v := range stages {
 		c.ReachN("api_call_stage_"+k, int64(v))
+	}
+	for _, ob := range overlaps {
+		if ob.returned && (!ob.transportClosed || !ob.flag || !ob.chClosed || ob.err != nil) {
+			c.Violate("overlapping-shutdown-returned-early", "", ob.node, "a Shutdown call issued while another Shutdown was inside transport.Shutdown() returned (err=%v) although the teardown was not finished: transport closed=%v, shutdown flag=%v, shutdownCh closed=%v", ob.err, ob.transportClosed, ob.flag, ob.chClosed)
+		}
 	}
 	// nothing reaches the network after Shutdown returned (+ one probe window)
 	for _, n := range cx.cl.nodes {
